@@ -56,7 +56,8 @@ if __name__ == '__main__':
     SUFFIX = (' A slice of the same workload is repeated in further builds of the same sources - strict -std=c99, -fshort-enums, -DNDEBUG, '
               '-funsigned-char, without the compiler\'s byte-order macros, a freestanding 32-bit (ILP32) executable and clang MemorySanitizer '
               '(whichever apply to the property; listed in the evidence rule) - and every binding thunk counts the evaluations of each '
-              'argument of the API call it makes (a function evaluates each exactly once).')
+              'argument of the API call it makes (a function evaluates each exactly once).  A coverage-guided stage (clang libFuzzer + ASan/UBSan, mon/fuzz_*.c) '
+              'runs the same model oracle on inputs derived from the comparisons the library executes (magic values, content-gated shortcuts).')
     for p in props:
         if p in reg and p in table:
             t = dict(table[p])
